@@ -16,7 +16,8 @@ REPO = os.environ.get("VERIF_REPO", "/repo")
 BUILD = os.path.join(VERIF, "build")
 SPECS = os.path.join(VERIF, "specs")
 HARNESS = os.path.join(VERIF, "harness")
-HV = os.path.join(BUILD, "hv")
+# (a run against a scratch tree builds its own binary, so that such runs can go on side by side)
+HV = os.path.join(BUILD, "hv" if REPO == "/repo" else "hv-" + re.sub(r"[^A-Za-z0-9]+", "-", REPO).strip("-"))
 TLA_CP = ":".join([os.path.join(BUILD, "classes"),
                    "/opt/veriftools/tla/tla2tools.jar",
                    "/opt/veriftools/tla/CommunityModules-deps.jar"])
@@ -71,13 +72,13 @@ def build_classes():
 def build_harness():
     """(Re)build build/hv from /repo's current working tree + /verif/harness via -overlay."""
     t0 = time.time()
-    with Lock("harness"):
+    with Lock("harness" if REPO == "/repo" else os.path.basename(HV)):
         repl = {}
         for f in sorted(glob.glob(os.path.join(HARNESS, "*.go"))):
             repl[os.path.join(REPO, "zzverif", os.path.basename(f))] = f
         for f in sorted(glob.glob(os.path.join(HARNESS, "embed", "*"))):
             repl[os.path.join(REPO, "zzverif", "embed", os.path.basename(f))] = f
-        ov = os.path.join(BUILD, "overlay.json")
+        ov = os.path.join(BUILD, "overlay.json" if REPO == "/repo" else "overlay-" + os.path.basename(HV) + ".json")
         with open(ov, "w") as fh:
             json.dump({"Replace": repl}, fh, indent=1)
         p = sh(["go", "build", "-tags", "verif", "-overlay", ov, "-o", HV, "./zzverif/"],
